@@ -19,7 +19,9 @@
 (*  "lazy"     Dev_MediaBeforeResolve: computing `media` does not convert  *)
 (*             component-relative paths; only an access to template/js/css *)
 (*             (or their _file forms) does, for the classes its MRO walk   *)
-(*             visits.  The memoised media keeps whatever it saw first.    *)
+(*             visits.  The memoised media keeps the js names it saw first *)
+(*             (and a live reference to the css dict of a class merged     *)
+(*             with no base, which the later conversion rewrites in place).*)
 (*                                                                         *)
 (* With D = {} this module describes the repaired code and must satisfy    *)
 (* MediaInherit (checked by TLC: ImplRefines).  The trace validator uses   *)
